@@ -17,6 +17,8 @@ namespace `Bp.SrcMeta`:
     Message.__setattr__                       setattr S fs self attr value             : Py.Res PyMeta.Inst
     Message._get_field_default                get_field_default mk fs self field_name  : Py.Res Val
     dataclass_field, the 18 `*_field` helpers dataclass_field …, enum_field …          : Py.Res PyMeta.DField
+                                              (`dataclasses.field(default=…, metadata={"betterproto": FieldMetadata(…)})`,
+                                              `None if optional else PLACEHOLDER`; parameters typed by their public names)
 
 (`cls` / `fs`: the class, i.e. its `List FieldD`; `S`: the schema; `mk c`: `Cls()` of message class `c`.)
 lean/BpProofs/SrcTieMeta*.lean prove them equal to the model's lookups (`findField`, `membersFrom`, …), `construct`,
@@ -65,7 +67,7 @@ BASE_TY = {"bool": "Bool", "int": "Int", "nat": "Nat", "name": "Nat", "group": "
            "field": "PyMeta.Field", "meta": "FieldD", "cls": "(List FieldD)", "hint": "PyMeta.Hint", "tobj": "PyMeta.TObj",
            "defgen": "PyMeta.DefGen", "inst": "PyMeta.Inst", "classmeta": "PyMeta.ClassMeta", "clskey": "PyMeta.ClsKey",
            "clsval": "PyMeta.ClsVal", "ptype": "PType", "dfield": "PyMeta.DField", "unit": "Unit", "schema": "Schema",
-           "mkfn": "(Nat → Py.Res Val)", "cache": "(Option PyMeta.ClassMeta)"}
+           "mkfn": "(Nat → Py.Res Val)", "cache": "(Option PyMeta.ClassMeta)", "fmeta": "PyMeta.FieldMetadata"}
 
 
 def lty(t):
@@ -127,6 +129,13 @@ FUNCS = [
     ("get_field_default", "Message", "_get_field_default", "get_field_default", "method", ["name"], "val",
      [("mk", "mkfn"), ("fs", "cls")]),
 ]
+# module-level functions: dataclass_field and the `*_field` helpers; parameters are typed by their (public, keyword) names
+FIELD_FUNCS = ["dataclass_field", "enum_field", "bool_field", "int32_field", "int64_field", "uint32_field", "uint64_field",
+               "sint32_field", "sint64_field", "float_field", "double_field", "fixed32_field", "fixed64_field", "sfixed32_field",
+               "sfixed64_field", "string_field", "bytes_field", "message_field", "map_field"]
+PARAM_TY = {"number": "nat", "proto_type": "ptype", "map_types": ("opt", ("pair", "ptype")), "group": ("opt", "group"),
+            "wraps": ("opt", "ptype"), "optional": "bool", "key_type": "ptype", "value_type": "ptype"}
+FIELDMETA_FIELDS = ["number", "proto_type", "map_types", "group", "wraps", "optional"]   # positional order of FieldMetadata(...)
 CALLEE_BY_PY = {"_type_hint": "type_hint", "_cls_for": "cls_for", "_get_field_default_gen": "gen",
                 "_get_default_gen": "get_default_gen", "_get_cls_by_field": "get_cls_by_field"}
 
@@ -209,6 +218,8 @@ class Fn:
             return term
         if ty == "none" and isinstance(want, tuple) and want[0] == "opt":
             return "Option.none"
+        if ty == "none" and want == "val":
+            return "Val.none"
         if isinstance(want, tuple) and want[0] == "opt" and ty == want[1]:
             return "(some %s)" % term
         if (ty, want) == ("name", "clskey"):
@@ -301,6 +312,10 @@ class Fn:
             b, tb = self.pure(e.orelse, env, pb)
             if pa or pb:
                 raise Unsupported("conditional expression with a raising branch: " + src)
+            if (ta, tb) == ("none", "val"):
+                a, ta = "Val.none", "val"
+            elif (ta, tb) == ("val", "none"):
+                b, tb = "Val.none", "val"
             if ta == "none" and tb != "none":
                 a, ta = self.coerce(a, ta, ("opt", tb) if not isinstance(tb, tuple) or tb[0] != "opt" else tb, src), None
                 ta = ("opt", tb) if not isinstance(tb, tuple) or tb[0] != "opt" else tb
@@ -324,6 +339,12 @@ class Fn:
             raise Unsupported("f-string " + src)
         if isinstance(e, ast.DictComp):
             return self.dictcomp(e, env, pre)
+        if isinstance(e, ast.Tuple) and len(e.elts) == 2:
+            a, ta = self.pure(e.elts[0], env, pre)
+            b, tb = self.pure(e.elts[1], env, pre)
+            if ta != tb or ta != "ptype":
+                raise Unsupported("tuple " + src)
+            return "(%s, %s)" % (a, b), ("pair", ta), False
         raise Unsupported("expression `%s` in %s" % (src, self.key))
 
     def betterproto_of(self, e, env):
@@ -410,6 +431,14 @@ class Fn:
                 raise Unsupported("a default generator is called in " + self.key)
             return "(PyMeta.callFor mk (PyMeta.protoTypeOf %s %s) %s)" % (self.cls_term(env), nme, g), "val", True
         if is_name(f) and f.id not in env:
+            if f.id in self.mod.done and f.id in FIELD_FUNCS:
+                return self.callee(f.id, list(e.args), kwargs, env, pre, src, None)
+            if f.id == "FieldMetadata" and n == len(FIELDMETA_FIELDS) and not kwargs and self.mod.fieldmeta_ok:
+                vals = []
+                for a, nme in zip(e.args, FIELDMETA_FIELDS):
+                    t, ty = self.pure(a, env, pre)
+                    vals.append(self.coerce(t, ty, PARAM_TY[nme], src))
+                return "(PyMeta.FieldMetadata.mk %s)" % " ".join(vals), "fmeta", False
             if f.id == "ProtoClassMetadata" and n == 1 and not kwargs:
                 c, tc = self.pure(e.args[0], env, pre)
                 if tc != "cls" or "init" not in self.mod.done:
@@ -456,6 +485,13 @@ class Fn:
                     raise Unsupported("call " + src)
                 return "(PyMeta.fieldMetadataGet %s)" % x, "meta", False
             if is_name(f.value, "dataclasses") and "dataclasses" not in env:
+                if f.attr == "field" and not n and sorted(kwargs) == ["default", "metadata"] and isinstance(kwargs["metadata"], ast.Dict) \
+                        and len(kwargs["metadata"].keys) == 1 and is_const(kwargs["metadata"].keys[0], "betterproto"):
+                    d, td = self.pure(kwargs["default"], env, pre)
+                    m, tm = self.pure(kwargs["metadata"].values[0], env, pre)
+                    if tm != "fmeta":
+                        raise Unsupported("call " + src)
+                    return "(PyMeta.DField.mk %s %s)" % (self.coerce(d, td, "val", src), m), "dfield", False
                 if f.attr == "fields" and n == 1 and not kwargs:
                     x, tx = self.pure(e.args[0], env, pre)
                     if tx != "cls":
@@ -1013,6 +1049,46 @@ class Module:
         if g is None or ast.unparse(g.body[-1]) != "return datetime(1970, 1, 1, tzinfo=timezone.utc)" or len(g.body) != 1 or g.args.args:
             raise Unsupported("datetime_default_gen is not `return datetime(1970, 1, 1, tzinfo=timezone.utc)`")
         self.check_slots()
+        self.fieldmeta_ok = self.check_fieldmeta()
+
+    def check_fieldmeta(self):
+        """class FieldMetadata is the frozen dataclass with the fields FIELDMETA_FIELDS, in this order"""
+        c = self.classes.get("FieldMetadata")
+        if c is None or [ast.unparse(d) for d in c.decorator_list] != ["dataclasses.dataclass(frozen=True)"]:
+            return False
+        names = [n.target.id for n in c.body if isinstance(n, ast.AnnAssign) and is_name(n.target)]
+        return names == FIELDMETA_FIELDS and not any(isinstance(n, ast.FunctionDef) and n.name in ("__init__", "__post_init__", "__new__")
+                                                     for n in c.body)
+
+    def plain(self, name):
+        """a module-level function of FIELD_FUNCS"""
+        fn = self.funcs.get(name)
+        if fn is None or fn.decorator_list:
+            raise Unsupported("no plain module-level function " + name)
+        a = fn.args
+        if a.vararg or a.kwarg or a.posonlyargs:
+            raise Unsupported("parameters of " + name)
+        names = [x.arg for x in a.args] + [x.arg for x in a.kwonlyargs]
+        defaults = [None] * (len(a.args) - len(a.defaults)) + list(a.defaults) + list(a.kw_defaults)
+        for n in names:
+            if n not in PARAM_TY:
+                raise Unsupported("parameter `%s` of %s" % (n, name))
+            lname(n)
+        ptys = [PARAM_TY[n] for n in names]
+        sig = (name, None, name, name, "function", ptys, "dfield", [])
+        self.sigs[name], self.pnames[name], self.defaults[name] = sig, names, defaults
+        tr = Fn(self, name, fn, sig)
+        env = dict(zip(names, ptys))
+
+        def fall(_e):
+            raise Unsupported("%s can end without a return" % name)
+        body = tr.block(list(fn.body), env, 1, fall)
+        if tr.loops:
+            raise Unsupported("loop in " + name)
+        head = "/- %s  (%s, line %d) -/\n" % (name, REL, fn.lineno)
+        sigtext = "".join("(%s : %s) " % (lname(n), lty(t)) for n, t in zip(names, ptys))
+        self.out.append(head + "def %s %s: Py.Res PyMeta.DField :=\n%s" % (name, sigtext, body))
+        self.done.append(name)
 
     def check_slots(self):
         c = self.classes.get("ProtoClassMetadata")
@@ -1162,6 +1238,8 @@ def translate(path=SRC):
             mod.betterproto()
         else:
             mod.function(key)
+    for name in FIELD_FUNCS:
+        mod.plain(name)
     return mod.out
 
 
